@@ -257,8 +257,14 @@ _arrays_being_joined: set = set()
 MAX_JOIN_DEPTH = 100
 
 
-def array_to_string(arr: "JSArray", separator: str = ",") -> str:
-    """Array.prototype.join: undefined and null elements read as "", nested arrays are joined."""
+def array_to_string(arr: "JSArray", separator: str = ",", elem_to_string=None) -> str:
+    """Array.prototype.join: undefined and null elements read as "", nested arrays are joined.
+
+    elem_to_string converts one element (the VM passes its ToString, which runs an
+    object's own toString / valueOf); without it objects read as "[object Object]".
+    """
+    if elem_to_string is None:
+        elem_to_string = to_string
     if id(arr) in _arrays_being_joined:
         return ""
     if len(_arrays_being_joined) >= MAX_JOIN_DEPTH:
@@ -268,10 +274,15 @@ def array_to_string(arr: "JSArray", separator: str = ",") -> str:
         raise JSRangeError("Maximum call stack size exceeded")
     _arrays_being_joined.add(id(arr))
     try:
-        return separator.join(
-            "" if elem is UNDEFINED or elem is NULL else to_string(elem)
-            for elem in arr._elements
-        )
+        parts = []
+        # The length is read once; elements are read as they are reached, so a
+        # toString that shrinks the array makes the remaining ones read as ""
+        for i in range(len(arr._elements)):
+            elem = arr._elements[i] if i < len(arr._elements) else UNDEFINED
+            parts.append(
+                "" if elem is UNDEFINED or elem is NULL else elem_to_string(elem)
+            )
+        return separator.join(parts)
     finally:
         _arrays_being_joined.discard(id(arr))
 
